@@ -8,6 +8,7 @@ import (
 	"os"
 	"runtime"
 	"sort"
+	"strconv"
 	"strings"
 	"sync"
 	"time"
@@ -52,6 +53,10 @@ func init() {
 
 // Main runs one property and returns the exit code.
 func Main(id, tier, replayPath string) int {
+	if js := os.Getenv("VERIF_JOB"); js != "" {
+		job, _ := strconv.Atoi(js)
+		return workerMain(id, tier, job)
+	}
 	p, ok := Registry[id]
 	if !ok {
 		fmt.Fprintf(os.Stderr, "unknown property %q\n", id)
